@@ -1,6 +1,7 @@
 import Casm.Model.Bits
 import Casm.Model.Show
 import Casm.Model.OutFormat
+import Casm.Model.Layout
 /-! casm-model: answers the line protocol from the Lean model's executable definitions. -/
 open Casm
 
@@ -15,6 +16,39 @@ def parseTy : String → Option Ty
 
 def parseOptNat (s : String) : Option (Option Nat) :=
   if s == "-" then some none else s.toNat?.map some
+
+def optNat (s : String) : Option Nat := if s == "-" then none else s.toNat?
+
+def parseBank (s : String) : Option Bank :=
+  match s.splitOn ":" with
+  | [a, u, la, sz, o, f] =>
+    match a.toInt?, u.toNat? with
+    | some a, some u => some ⟨a, u, optNat la, optNat sz, optNat o, f == "1"⟩
+    | _, _ => none
+  | _ => none
+
+def parseRItem (s : String) : Option RItem :=
+  match s.toList with
+  | 'b' :: r => (String.ofList r).toNat?.map .bank
+  | 'l' :: r => (String.ofList r).toNat?.map fun d => .label d 0
+  | 'e' :: r => some (.emit (r.map (· == '1')))
+  | 'r' :: r => (String.ofList r).toNat?.map .res
+  | 'a' :: r => (String.ofList r).toNat?.map .align
+  | 'd' :: r => (String.ofList r).toInt?.map .addr
+  | 'c' :: r => (String.ofList r).toNat?.map .const
+  | ['o'] => some .other
+  | _ => none
+
+def showLayErr : LayErr → String
+  | .bankOverlap => "bankOverlap" | .defaultBank => "defaultBank" | .outOfRange => "outOfRange"
+  | .nonWritable => "nonWritable" | .overlap => "overlap" | .misaligned => "misaligned"
+  | .valueRange => "valueRange" | .badBank => "badBank"
+
+def showBits (bs : List Bool) : String := if bs.isEmpty then "-" else String.ofList (bs.map fun b => if b then '1' else '0')
+
+def showSpans (sp : List OSpan) : String :=
+  if sp.isEmpty then "-" else
+  ",".intercalate (sp.map fun s => s!"{match s.offset with | some o => toString o | none => "n"}:{s.size}:{s.addr}")
 
 def step (line : String) : String :=
   match line.trimAscii.toString.splitOn " " with
@@ -70,6 +104,32 @@ def step (line : String) : String :=
       match formatOutputBytes f bs sp with
       | some bytes => s!"out {hexOfBytes bytes}"
       | none => "unsupported"
+  | ["ovl", hist] =>
+    let ps : List (Nat × Nat) := if hist == "-" then [] else
+      (hist.splitOn ",").filterMap fun s =>
+        match s.splitOn ":" with
+        | [p, z] => match p.toNat?, z.toNat? with
+          | some p, some z => some (p, z)
+          | _, _ => none
+        | _ => none
+    -- accept/reject per step, continuing after a rejection as the harness does
+    let rec go (es : List OEntry) (l : List (Nat × Nat)) (acc : List Char) : List Char :=
+      match l with
+      | [] => acc.reverse
+      | (p, z) :: rest =>
+        match checkAndInsert es p z with
+        | some es' => go es' rest ('a' :: acc)
+        | none => go es rest ('r' :: acc)
+    String.ofList (go [] ps [])
+  | ["lay", banks, items] =>
+    let bs : List Bank := defaultBank :: (if banks == "-" then [] else (banks.splitOn ",").filterMap parseBank)
+    let its : List RItem := if items == "-" then [] else (items.splitOn ",").filterMap parseRItem
+    match resolveLabels bs (initIter bs) its [] with
+    | .error e => s!"err {showLayErr e}"
+    | .ok its' =>
+      match buildOutput bs its' with
+      | .error e => s!"err {showLayErr e}"
+      | .ok out => s!"ok {showBits out.bits} {showSpans out.spans}"
   | _ => "bad-op"
 
 partial def loop (h : IO.FS.Stream) (out : IO.FS.Stream) : IO Unit := do
